@@ -1,8 +1,9 @@
 /-
-  C12: `offset_location` rotates any location whose parts lie in the record, for every offset `0 < |k| < L`:
-  every part is shifted and brought back into the record (`wrapPart`), abutting pieces are merged
-  (`mergeAdjacent`, which keeps all bases as long as no piece abuts both neighbours), and the result covers
-  exactly the bases `i` with `(i - k) mod L` in the location.
+  C12 (and C04, `offset_ring_rotates_general`): `offset_location` rotates any location whose parts lie in the
+  record and are on one strand, for every offset `0 < |k| < L`: every part is shifted and brought back into the
+  record (`wrapPart`), abutting pieces are merged (`mergeAdjacent`, which after the repair D58 keeps all bases for
+  runs of any length), and the result covers exactly the bases `i` with `(i - k) mod L` in the location, each base
+  as often as the location does (`cnt`), with the same total length and strand.
 -/
 import ASV.Proofs.RegionExtractBases
 set_option linter.unusedSimpArgs false
@@ -15,11 +16,11 @@ def lenSum (ps : List Part) : Int := (ps.map Part.len).sum
 
 theorem lenSum_cons (p : Part) (ps : List Part) : lenSum (p :: ps) = p.len + lenSum ps := by simp [lenSum]
 
-theorem chainFree_tail (a : Part) (rest : List Part) (h : chainFree (a :: rest) = true) : chainFree rest = true := by
-  match rest with
-  | [] => rfl
-  | [_] => rfl
-  | b :: c :: r => simp [chainFree] at h; exact h.2
+/-- how many of the parts contain base `i` -/
+def cnt (ps : List Part) (i : Int) : Nat := ps.countP (·.mem i)
+
+theorem cnt_cons (p : Part) (ps : List Part) (i : Int) : cnt (p :: ps) i = (if p.mem i then 1 else 0) + cnt ps i := by
+  simp only [cnt, List.countP_cons]; omega
 
 theorem Part.mem_merge (a b : Part) (s : Strand) (ha : a.lo ≤ a.hi) (hb : b.lo ≤ b.hi) (hadj : a.hi = b.lo) (i : Int) :
     (⟨a.lo, b.hi, s⟩ : Part).mem i = (a.mem i || b.mem i) := by
@@ -27,57 +28,59 @@ theorem Part.mem_merge (a b : Part) (s : Strand) (ha : a.lo ≤ a.hi) (hb : b.lo
   by_cases h1 : a.lo ≤ i <;> by_cases h2 : i < a.hi <;> by_cases h3 : b.lo ≤ i <;> by_cases h4 : i < b.hi <;>
     simp [h1, h2, h3, h4] <;> omega
 
-/-- `mergeAdjacent` keeps the union of the bases and the validity of the parts, provided no piece abuts
-    both neighbours (otherwise the code itself loses bases) and abutting pieces share their strand -/
+/-- `mergeAdjacent` (after the repair D58) keeps the union of the bases, the total length and the validity of the
+    parts, for runs of abutting pieces of any length, provided abutting pieces share their strand (otherwise it raises) -/
 theorem mergeAdjacent_mem (L : Int) (s : Strand) : ∀ (rest more : List Part) (previous m : Part),
     m.hi = previous.hi → PartIn L previous → PartIn L m → (∀ p ∈ more, PartIn L p) → (∀ p ∈ rest, PartIn L p) →
     previous.strand = s → (∀ p ∈ rest, p.strand = s) →
-    chainFree (previous :: rest) = true →
-    (m = previous ∨ (∀ q, rest.head? = some q → previous.hi ≠ q.lo)) →
     ∃ r, mergeAdjacent (m :: more) previous rest = .ok r ∧
       (∀ i, anyMem r i = (anyMem (m :: more) i || anyMem rest i)) ∧ (∀ p ∈ r, PartIn L p) ∧
-      lenSum r = lenSum (m :: more) + lenSum rest
-  | [], more, previous, m, _, _, hm, hmore, _, _, _, _, _ => by
-    refine ⟨(m :: more).reverse, by simp [mergeAdjacent, pure, Except.pure], ?_, ?_, by simp [lenSum, List.sum_reverse]; omega⟩
+      lenSum r = lenSum (m :: more) + lenSum rest ∧
+      (∀ i, cnt r i = cnt (m :: more) i + cnt rest i) ∧
+      (m.strand = s → (∀ p ∈ more, p.strand = s) → ∀ p ∈ r, p.strand = s)
+  | [], more, previous, m, _, _, hm, hmore, _, _, _ => by
+    refine ⟨(m :: more).reverse, by simp [mergeAdjacent, pure, Except.pure], ?_, ?_, by simp [lenSum, List.sum_reverse]; omega,
+      by intro i; simp [cnt, List.countP_reverse, List.countP_cons], ?_⟩
+    rotate_left 2
+    · intro h1 h2 p hp
+      rcases List.mem_cons.1 (List.mem_reverse.1 hp) with rfl | hp
+      · exact h1
+      · exact h2 p hp
     · intro i; simp [anyMem, List.any_reverse, Bool.or_comm]
     · intro p hp
       rcases List.mem_cons.1 (List.mem_reverse.1 hp) with rfl | hp
       · exact hm
       · exact hmore p hp
-  | part :: rest, more, previous, m, hmh, hprev, hm, hmore, hrest, hs, hsr, hcf, hinv => by
+  | part :: rest, more, previous, m, hmh, hprev, hm, hmore, hrest, hs, hsr => by
     have hpart : PartIn L part := hrest part (by simp)
     have hps : part.strand = s := hsr part (by simp)
-    have hcf' := chainFree_tail previous (part :: rest) hcf
     by_cases hadj : previous.hi = part.lo
-    · -- merge: by the invariant `m` is `previous` itself
-      have hmp : m = previous := by
-        rcases hinv with h | h
-        · exact h
-        · exact absurd hadj (h part rfl)
-      subst hmp
-      have hnext : ∀ q, rest.head? = some q → part.hi ≠ q.lo := by
-        intro q hq
-        match rest, hq with
-        | c :: r, hq =>
-          simp at hq; subst hq
-          simp [chainFree, hadj] at hcf
-          exact hcf.1
-      obtain ⟨r, hr, hmem, hin, hsum⟩ := mergeAdjacent_mem L s rest more part ⟨m.lo, part.hi, part.strand⟩ rfl hpart
+    · obtain ⟨r, hr, hmem, hin, hsum, hcnt, hstr⟩ := mergeAdjacent_mem L s rest more part ⟨m.lo, part.hi, part.strand⟩ rfl hpart
         ⟨hm.1, by show m.lo < part.hi; have := hpart.2.1; have := hm.2.1; omega, hpart.2.2⟩ hmore (fun p hp => hrest p (by simp [hp])) hps
-        (fun p hp => hsr p (by simp [hp])) hcf' (.inr hnext)
-      refine ⟨r, ?_, ?_, hin, by rw [hsum]; simp only [lenSum_cons, Part.len]; omega⟩
-      · have hse : ¬ (m.strand != part.strand) = true := by simp [hs, hps]
+        (fun p hp => hsr p (by simp [hp]))
+      have hmm := fun i => Part.mem_merge m part part.strand (by have := hm.2.1; omega) (by have := hpart.2.1; omega) (by omega) i
+      refine ⟨r, ?_, ?_, hin, by rw [hsum]; simp only [lenSum_cons, Part.len]; omega, ?_, fun _ h2 => hstr hps h2⟩
+      rotate_left 2
+      · intro i
+        rw [hcnt i]
+        simp only [cnt_cons, hmm i]
+        have hdis : ¬ (m.mem i = true ∧ part.mem i = true) := by
+          simp only [Part.mem_iff]; omega
+        cases h1 : m.mem i <;> cases h2 : part.mem i <;> simp_all <;> omega
+      · have hse : ¬ (previous.strand != part.strand) = true := by simp [hs, hps]
         simp only [mergeAdjacent, hadj, if_true, hse, if_false, Bool.false_eq_true]
         exact hr
       · intro i
         rw [hmem i]
-        have := Part.mem_merge m part part.strand (by have := hm.2.1; omega) (by have := hpart.2.1; omega) hadj i
+        have := Part.mem_merge m part part.strand (by have := hm.2.1; omega) (by have := hpart.2.1; omega) (by omega) i
         simp only [anyMem, List.any_cons, this]
         cases m.mem i <;> cases part.mem i <;> simp
-    · obtain ⟨r, hr, hmem, hin, hsum⟩ := mergeAdjacent_mem L s rest (m :: more) part part rfl hpart hpart
+    · obtain ⟨r, hr, hmem, hin, hsum, hcnt, hstr⟩ := mergeAdjacent_mem L s rest (m :: more) part part rfl hpart hpart
         (by intro p hp; rcases List.mem_cons.1 hp with rfl | hp; exact hm; exact hmore p hp)
-        (fun p hp => hrest p (by simp [hp])) hps (fun p hp => hsr p (by simp [hp])) hcf' (.inl rfl)
-      refine ⟨r, ?_, ?_, hin, by rw [hsum]; simp only [lenSum_cons]; omega⟩
+        (fun p hp => hrest p (by simp [hp])) hps (fun p hp => hsr p (by simp [hp]))
+      refine ⟨r, ?_, ?_, hin, by rw [hsum]; simp only [lenSum_cons]; omega,
+        by intro i; rw [hcnt i]; simp only [cnt_cons]; omega,
+        fun h1 h2 => hstr hps (by intro p hp; rcases List.mem_cons.1 hp with rfl | hp; exact h1; exact h2 p hp)⟩
       · simp only [mergeAdjacent, hadj, if_false]
         exact hr
       · intro i
@@ -164,24 +167,105 @@ theorem wrapPart_shift (L k : Int) (p : Part) (hp : PartIn L p) (hk0 : -L < k) (
       · intro h; exact ⟨by omega, by omega, (key i (by omega) (by omega)).2 (by omega)⟩
       · rintro ⟨a, b, h⟩; have := (key i a b).1 h; omega
 
+/-- … and every base of the record is in at most one of the pieces: exactly one iff it is a rotated base of the part -/
+theorem wrapPart_shift_cnt (L k : Int) (p : Part) (hp : PartIn L p) (hk0 : -L < k) (hk1 : k < L) (i : Int) :
+    cnt (wrapPart L (shiftPart k p)) i = if 0 ≤ i ∧ i < L ∧ p.mem ((i - k) % L) = true then 1 else 0 := by
+  have hL : 0 < L := by unfold PartIn at hp; omega
+  have hm := (wrapPart_shift L k p hp hk0 hk1).2.1 i
+  have hs0 := Int.emod_nonneg (shiftPart k p).lo (by omega : L ≠ 0)
+  have he1 := Int.emod_lt_of_pos ((shiftPart k p).hi - 1) hL
+  unfold wrapPart at hm ⊢
+  simp only at hm ⊢
+  split at hm
+  · rename_i hc
+    simp only [List.any_cons, List.any_nil, Bool.or_false] at hm
+    simp only [hc, if_true, cnt_cons, cnt, List.countP_nil]
+    by_cases hcond : 0 ≤ i ∧ i < L ∧ p.mem ((i - k) % L) = true
+    · simp [hm.2 hcond, hcond]
+    · have : ¬ _ := fun h => hcond (hm.1 h)
+      simp [this, hcond]
+  · rename_i hc
+    simp only [List.any_cons, List.any_nil, Bool.or_false, Bool.or_eq_true] at hm
+    simp only [hc, if_false, cnt_cons, cnt, List.countP_nil]
+    have hle : ((shiftPart k p).hi - 1) % L + 1 ≤ (shiftPart k p).lo % L := by
+      simp only [Bool.and_eq_true, decide_eq_true_eq] at hc
+      omega
+    have hdis : ¬ ((⟨(shiftPart k p).lo % L, L, (shiftPart k p).strand⟩ : Part).mem i = true ∧
+        (⟨0, ((shiftPart k p).hi - 1) % L + 1, (shiftPart k p).strand⟩ : Part).mem i = true) := by
+      simp only [Part.mem_iff]; omega
+    by_cases hcond : 0 ≤ i ∧ i < L ∧ p.mem ((i - k) % L) = true
+    · rcases hm.2 hcond with h1 | h1
+      · have h2 : ¬ _ := fun h => hdis ⟨h1, h⟩
+        simp [h1, h2, hcond]
+      · have h2 : ¬ _ := fun h => hdis ⟨h, h1⟩
+        simp [h1, h2, hcond]
+    · have h1 : ¬ _ := fun h => hcond (hm.1 (.inl h))
+      have h2 : ¬ _ := fun h => hcond (hm.1 (.inr h))
+      simp [h1, h2, hcond]
+
 theorem emod_emod_shift (a L : Int) (hL : 0 < L) : (a + L) % L = a % L := by
   have : a + L = a + 1 * L := by omega
   rw [this, Int.add_mul_emod_self_right]
 
-/-- `offset_location` rotates: for parts inside the record of one strand, an offset `k` with `0 < |k| < L`, a
-    location not as long as the record, and pieces of which none abuts both neighbours, the result is made of
-    valid parts and covers exactly the bases `i` with `(i - k) mod L` in the location -/
-theorem offset_rotates_general (l : Loc) (k L : Int) (s : Strand) (hne : l.parts ≠ [])
+theorem cnt_append (a b : List Part) (i : Int) : cnt (a ++ b) i = cnt a i + cnt b i := by
+  simp [cnt, List.countP_append]
+
+theorem cnt_rotPieces (L k : Int) (hk0 : -L < k) (hk1 : k < L) (i : Int) : ∀ ps : List Part, (∀ p ∈ ps, PartIn L p) →
+    cnt (ps.flatMap fun p => wrapPart L (shiftPart k p)) i = if 0 ≤ i ∧ i < L then cnt ps ((i - k) % L) else 0
+  | [], _ => by simp [cnt]
+  | p :: ps, h => by
+    have h1 := wrapPart_shift_cnt L k p (h p (by simp)) hk0 hk1 i
+    have h2 := cnt_rotPieces L k hk0 hk1 i ps (fun q hq => h q (by simp [hq]))
+    simp only [List.flatMap_cons, cnt_append, h1, h2, cnt_cons]
+    by_cases hr : 0 ≤ i ∧ i < L
+    · by_cases hm : p.mem ((i - k) % L) = true
+      · simp [hr, hm]
+      · simp [hr, hm]
+    · have : ¬ (0 ≤ i ∧ i < L ∧ p.mem ((i - k) % L) = true) := fun hh => hr ⟨hh.1, hh.2.1⟩
+      simp [hr, this]
+
+theorem rotPieces_inside (L k : Int) : ∀ ps : List Part, (∀ p ∈ ps, 0 ≤ p.lo + k ∧ p.lo < p.hi ∧ p.hi + k ≤ L) →
+    (ps.flatMap fun p => wrapPart L (shiftPart k p)) = ps.map (shiftPart k)
+  | [], _ => rfl
+  | p :: ps, h => by
+    have hp := h p (by simp)
+    simp only [List.flatMap_cons, List.map_cons]
+    rw [wrapPart_inside L (shiftPart k p) (by simp [shiftPart]; omega) (by simp [shiftPart]; omega) (by simp [shiftPart]; omega),
+      rotPieces_inside L k ps (fun q hq => h q (by simp [hq]))]
+    rfl
+
+/-- `offset_location` rotates: for parts inside the record of one strand, an offset `k` with `0 < |k| < L` and a
+    location not as long as the record, the result is made of valid parts of the same total length and covers
+    exactly the bases `i` with `(i - k) mod L` in the location -/
+theorem offset_rotates_full (l : Loc) (k L : Int) (s : Strand) (hne : l.parts ≠ [])
     (hparts : ∀ p ∈ l.parts, PartIn L p) (hs : ∀ p ∈ l.parts, p.strand = s)
-    (hk : k ≠ 0) (hk0 : -L < k) (hk1 : k < L) (hlen : l.len ≠ L) (hcf : chainFree (rotPieces L k l) = true) :
+    (hk : k ≠ 0) (hk0 : -L < k) (hk1 : k < L) (hlen : l.len ≠ L) :
     ∃ r, offsetLocation l k L = .ok r ∧ (∀ p ∈ r.parts, PartIn L p) ∧ r.len = l.len ∧
-      ∀ i, r.mem i = true ↔ (0 ≤ i ∧ i < L ∧ l.mem ((i - k) % L) = true) := by
+      (∀ i, r.mem i = true ↔ (0 ≤ i ∧ i < L ∧ l.mem ((i - k) % L) = true)) ∧
+      (∀ i, cnt r.parts i = if 0 ≤ i ∧ i < L then cnt l.parts ((i - k) % L) else 0) ∧
+      (∀ p ∈ r.parts, p.strand = s) := by
   obtain ⟨p0, hp0⟩ := List.exists_mem_of_ne_nil _ hne
   have hL : 0 < L := by have := hparts p0 hp0; unfold PartIn at this; omega
   have hnonempty : ∀ p ∈ l.parts, p.lo < p.hi := fun p hp => (hparts p hp).2.1
   by_cases htriv : 0 < l.start + k ∧ l.start + k < l.end + k ∧ l.end + k < L
   · -- no wrapping: every part moved
-    refine ⟨shiftLoc l k, offset_no_wrap l k L hne hnonempty hk hL hlen htriv.1 htriv.2.2, ?_, ?_, ?_⟩
+    have hshparts : (shiftLoc l k).parts = l.parts.map (shiftPart k) := by
+      cases l <;> simp [shiftLoc, Loc.parts, shiftPart]
+    have hinside : ∀ p ∈ l.parts, 0 ≤ p.lo + k ∧ p.lo < p.hi ∧ p.hi + k ≤ L := by
+      intro p hp
+      have hb := start_le_part l p hp
+      have := hparts p hp
+      unfold PartIn at this
+      omega
+    refine ⟨shiftLoc l k, offset_no_wrap l k L hne hnonempty hk hL hlen htriv.1 htriv.2.2, ?_, ?_, ?_, ?_, ?_⟩
+    rotate_left 3
+    · intro i
+      rw [hshparts, ← rotPieces_inside L k l.parts hinside]
+      exact cnt_rotPieces L k hk0 hk1 i l.parts hparts
+    · intro p hp
+      rw [hshparts] at hp
+      obtain ⟨q, hq, rfl⟩ := List.mem_map.1 hp
+      exact hs q hq
     · intro p hp
       have : p ∈ l.parts.map (shiftPart k) := by
         cases l <;> simpa [shiftLoc, Loc.parts, shiftPart] using hp
@@ -257,14 +341,24 @@ theorem offset_rotates_general (l : Loc) (k L : Int) (s : Strand) (hne : l.parts
       rw [hpc] at this
       simp [anyMem] at this
     | cons first rest =>
-      rw [hpc] at hall hcf hmemP
-      obtain ⟨r, hr, hmem, hin, hsum⟩ := mergeAdjacent_mem L s rest [] first first rfl (hall first (by simp)).1
+      rw [hpc] at hall hmemP
+      obtain ⟨r, hr, hmem, hin, hsum, hcnt, hstr⟩ := mergeAdjacent_mem L s rest [] first first rfl (hall first (by simp)).1
         (hall first (by simp)).1 (by simp) (fun p hp => (hall p (by simp [hp])).1) (hall first (by simp)).2
-        (fun p hp => (hall p (by simp [hp])).2) hcf (.inl rfl)
+        (fun p hp => (hall p (by simp [hp])).2)
       have hallB := allIn_of L (first :: rest) (fun p hp => (hall p hp).1)
       have hparts_r : (Loc.ofParts r).parts = r := by
         unfold Loc.ofParts; split <;> simp [Loc.parts]
-      refine ⟨Loc.ofParts r, ?_, ?_, ?_, ?_⟩
+      refine ⟨Loc.ofParts r, ?_, ?_, ?_, ?_, ?_, ?_⟩
+      rotate_left 4
+      · intro i
+        rw [hparts_r, hcnt i]
+        have := cnt_rotPieces L k hk0 hk1 i l.parts hparts
+        have hrp : (l.parts.flatMap fun p => wrapPart L (shiftPart k p)) = rotPieces L k l := rfl
+        rw [hrp, hpc] at this
+        rw [← this, cnt_cons first rest i, cnt_cons first [] i]
+        simp [cnt]
+      · rw [hparts_r]
+        exact hstr (hall first (by simp)).2 (by simp)
       · unfold finishOffset
         simp only [hallB, Bool.not_true, Bool.false_eq_true, if_false, bind, Except.bind, pure, Except.pure, hr]
       · rw [hparts_r]; exact hin
@@ -292,6 +386,15 @@ theorem offset_rotates_general (l : Loc) (k L : Int) (s : Strand) (hne : l.parts
         rw [this, hmem i, ← hmemP i]
         simp [anyMem, Bool.or_comm]
 
+/-- the part of `offset_rotates_full` used for the bases -/
+theorem offset_rotates_general (l : Loc) (k L : Int) (s : Strand) (hne : l.parts ≠ [])
+    (hparts : ∀ p ∈ l.parts, PartIn L p) (hs : ∀ p ∈ l.parts, p.strand = s)
+    (hk : k ≠ 0) (hk0 : -L < k) (hk1 : k < L) (hlen : l.len ≠ L) :
+    ∃ r, offsetLocation l k L = .ok r ∧ (∀ p ∈ r.parts, PartIn L p) ∧ r.len = l.len ∧
+      ∀ i, r.mem i = true ↔ (0 ≤ i ∧ i < L ∧ l.mem ((i - k) % L) = true) := by
+  obtain ⟨r, h1, h2, h3, h4, _⟩ := offset_rotates_full l k L s hne hparts hs hk hk0 hk1 hlen
+  exact ⟨r, h1, h2, h3, h4⟩
+
 theorem finishOffset_one (L : Int) (a : Part) (ha : PartIn L a) : finishOffset L [a] = .ok (.simple a) := by
   have hall := allIn_of L [a] (by intro p hp; simp at hp; subst hp; exact ha)
   unfold finishOffset
@@ -314,5 +417,22 @@ theorem offset_simple_shift (p : Part) (k L : Int) (hk : k ≠ 0) (hL : 0 < L) (
     simp only [List.flatMap_cons, List.flatMap_nil, List.append_nil]
     rw [wrapPart_inside L (shiftPart k p) (by simp [shiftPart]; omega) (by simp [shiftPart]; omega) (by simp [shiftPart]; omega)]
     exact finishOffset_one L _ (by simp [PartIn, shiftPart]; omega)
+
+theorem len_pos_of_parts' (L : Int) (l : Loc) (hne : l.parts ≠ []) (hp : ∀ p ∈ l.parts, PartIn L p) : 0 < l.len := by
+  unfold Loc.len
+  have : ∀ ps : List Part, ps ≠ [] → (∀ p ∈ ps, PartIn L p) → 0 < (ps.map Part.len).sum := by
+    intro ps
+    induction ps with
+    | nil => intro h; exact absurd rfl h
+    | cons p ps ih =>
+      intro _ h
+      have hp := h p (by simp)
+      unfold PartIn at hp
+      by_cases hps : ps = []
+      · subst hps; simp [Part.len]; omega
+      · have := ih hps (fun q hq => h q (by simp [hq]))
+        simp only [List.map_cons, List.sum_cons, Part.len] at this ⊢
+        omega
+  exact this l.parts hne hp
 
 end ASV.RegionExtract
